@@ -80,6 +80,7 @@ type Val struct {
 	Builtin string
 	Iter    *Cell // range iterator state
 	IterOf  *Val
+	LValue  bool // produced by a contract expression: the address stands for the value stored there
 }
 
 func TV(t Term) Val { return Val{T: t} }
